@@ -459,4 +459,4 @@ def run(ctx):
     for config, masks in ((("stable", [0, 2, 6]), ("nightly", [0])) if not thorough else
                           (("stable", [0, 2, 4, 6]), ("debug", [0, 6]), ("nightly", [0, 1, 3, 7]))):
         cases, meta = saferun.gen_safe_cases(ctx, facts, config, entries, lens, [(0, 0, 0, 0)], masks, seed_tag=67, cls="small")
-        saferun.compare_safe(ctx, config, cases, meta, "D:safe-cosine")
+        saferun.compare_safe(ctx, config, cases, meta, "D:safe-cosine", spec_pid="C06")
